@@ -1,0 +1,15 @@
+//go:build verif
+
+package common
+
+// Verification hooks (build tag verif) for the /verif C01/C05 checks: the
+// unexported constants the validation model depends on, re-exported so the
+// constants translator reads them from the current tree.
+const (
+	VerifMintGroupUniversal         = mintGroupUniversal
+	VerifCustodianNodeExtraSize     = custodianNodeExtraSize
+	VerifCustodianNodeActionUpdate  = custodianNodeActionUpdate
+	VerifCustodianNodesMinimumCount = custodianNodesMinimumCount
+	VerifCustodianNodeNewPrice      = custodianNodeNewPrice
+	VerifCustodianNodeUpdatePrice   = custodianNodeUpdatePrice
+)
